@@ -491,8 +491,8 @@ PROPS = {
 
 # ---- attribution of failed obligations in shared units (bin/check)
 # A failed obligation whose clause text carries tags cNN(..) belongs exactly to the tagged properties.  Otherwise it
-# belongs to every property that claims it by a SCOPE pattern for that unit (regex over "item | message | clause"),
-# and, when nobody claims it, to the unit's owner.  A property reports only obligations that belong to it; the rest
+# belongs to the unit's owner and to every property that claims it by a SCOPE pattern for that unit (regex over
+# "item | message | clause").  A property reports only obligations that belong to it; the rest
 # are listed in its evidence as notes (they are another property's alarm, or an unproved supporting contract).
 UNIT_OWNER = {
     "time": "C16", "chunked": "C07", "headers": "C14", "copy": "C09", "body": "C09", "conn": "C05", "head": "C01",
@@ -527,7 +527,8 @@ def attribute(unit_name, ob_id):
         for pat in m.get(unit_name, []):
             if _re.search(pat, ob_id):
                 who.add(pid)
-    return who or {UNIT_OWNER.get(unit_name, "?")}
+    # the unit's owner always owns the untagged obligations of its unit; SCOPE adds co-owners
+    return who | {UNIT_OWNER.get(unit_name, "?")}
 
 NOT_APPLICABLE = {
     "C10": "about destructor execution at scope exit, future cancellation and panic (Rust drop semantics + temp-file's Drop + the file system); no statement in /repo to attach an obligation to, and neither verifier models drop timing or the file system",
